@@ -393,7 +393,7 @@ def run_property(prop, tier, seed, replay=None):
                 pass
             violations.append((skey or finding_key_from_verdict(v2), v2, path))
         else:
-            notes.append('candidate failure from %s did not reproduce (%d failing replays) from its replay file (%s): unreproduced, not reported' % (s.name, nfail, path))
+            notes.append('candidate failure from %s did not reproduce (%d failing replays of %d) from its replay file (%s): unreproduced, not reported; its verdict was: %s' % (s.name, nfail, nrun, path, verdict[:300]))
             merged['counters']['unreproduced_candidates'] = merged['counters'].get('unreproduced_candidates', 0) + 1
 
     # 5. classify violations against the known-findings file
@@ -446,6 +446,11 @@ def run_property(prop, tier, seed, replay=None):
         print('VIOLATION property=%s replay=%s' % (pid, path))
         print('  key=%s' % key)
         print('  verdict=%s' % verdict.replace('\n', ' ')[:500])
-    print('%s %s: %d evaluations, %d distinct non-trivial, %d violation(s), %d known finding(s), %.1fs' % (
-        pid, tier, ev['coverage']['evaluations'], distinct, len(out_viol), len(known_hits), wall))
+    unrep = merged['counters'].get('unreproduced_candidates', 0)
+    for n in notes:
+        if 'did not reproduce' in n or 'hit its time budget' in n:
+            print('NOTE: ' + n[:400])
+    print('%s %s: %d evaluations, %d distinct non-trivial, %d violation(s), %d known finding(s), %.1fs%s' % (
+        pid, tier, ev['coverage']['evaluations'], distinct, len(out_viol), len(known_hits), wall,
+        (' [%d candidate(s) did not reproduce and were not reported - the shards that raised them stopped early]' % unrep) if unrep else ''))
     return 1 if out_viol else 0
